@@ -35,19 +35,19 @@ type OpenCall struct {
 // StreamClient is a scripted couchbase.Client for the stream core.
 type StreamClient struct {
 	BaseClient
-	mu        sync.Mutex
-	High      map[uint16]uint64 // GetVBucketSeqNos
-	UUID      map[uint16]uint64 // head of the failover log / branch of the open response
-	Roll      map[uint16]bool   // answer the next open of this vBucket with "rollback" first
-	OpenErr   map[uint16]error  // fail the open of this vBucket
-	SeqNoErr  error
+	mu         sync.Mutex
+	High       map[uint16]uint64 // GetVBucketSeqNos
+	UUID       map[uint16]uint64 // head of the failover log / branch of the open response
+	Roll       map[uint16]bool   // answer the next open of this vBucket with "rollback" first
+	OpenErr    map[uint16]error  // fail the open of this vBucket
+	SeqNoErr   error
 	FailLogErr error
-	Opens     []OpenCall
-	Closes    []uint16
-	Observers map[uint16]couchbase.Observer
-	OpenCh    chan uint16 // signalled on every OpenStream call
-	NumVb     int
-	snap      *gocbcore.ConfigSnapshot
+	Opens      []OpenCall
+	Closes     []uint16
+	Observers  map[uint16]couchbase.Observer
+	OpenCh     chan uint16 // signalled on every OpenStream call
+	NumVb      int
+	snap       *gocbcore.ConfigSnapshot
 }
 
 func NewStreamClient() *StreamClient {
@@ -196,7 +196,9 @@ func (s *Store) Save(state map[uint16]*models.CheckpointDocument, dirty map[uint
 	s.Entered <- call
 	err := <-s.release
 	s.mu.Lock()
-	s.cur = nil
+	if s.cur == call { // a queued save may already have entered
+		s.cur = nil
+	}
 	s.mu.Unlock()
 	return err
 }
